@@ -18,6 +18,7 @@ import (
 	"encoding/json"
 	"fmt"
 	"html/template"
+	"os"
 	"regexp"
 	"sort"
 	"strconv"
@@ -364,7 +365,20 @@ func isJS(ct string) bool { return ct == "application/javascript" || ct == "text
 
 func escapes(ct, ext string) bool { return isJS(ct) && ext != ".js" && ext != "" }
 
-// textualOK: no data maps, no let, no tick, no JavaScript escaping anywhere.
+// hasSureYield: the layout reaches a yield on every rendering (directly, inside a block helper's
+// block or in the body of a partial it calls unconditionally). Pasting the body where the yield stands evaluates it as often as the yield is reached,
+// while a partial's body is always evaluated once: with a yield that may be skipped the two differ
+// in whether an error inside the body surfaces, which is no defect of the layout mechanism.
+func hasSureYield(items []Item) bool {
+	for _, it := range items {
+		if it.K == "yield" || ((it.K == "blk" || it.K == "partial") && hasSureYield(it.Body)) {
+			return true
+		}
+	}
+	return false
+}
+
+// textualOK: no data maps, no let, no tick, no JavaScript escaping anywhere, layouts always yield.
 func textualOK(ct string, items []Item) bool {
 	for _, it := range items {
 		if len(it.Data) > 0 || it.K == "let" || it.K == "tick" {
@@ -374,7 +388,7 @@ func textualOK(ct string, items []Item) bool {
 			if escapes(ct, it.Ext) {
 				return false
 			}
-			if it.Lay != nil && (escapes(ct, it.Lay.Ext) || !textualOK(ct, it.Lay.Body)) {
+			if it.Lay != nil && (escapes(ct, it.Lay.Ext) || !textualOK(ct, it.Lay.Body) || !hasSureYield(it.Lay.Body)) {
 				return false
 			}
 		}
@@ -704,6 +718,8 @@ type scope struct {
 	anc      []string // content names of enclosing documents
 	yield    bool
 	inLayout bool
+	inBlock  bool // somewhere below a contentFor block
+	defined  []string // content names known to be defined at this point (generation bias only)
 	hidden   []string // names that may not be read here or below (data keys of an enclosing contentOf default block)
 }
 
@@ -773,7 +789,7 @@ func (g *G) emit(sc scope) Item {
 		}
 		return Item{K: "if", N: n, Body: []Item{{K: "emit", N: n}}}
 	}
-	if g.intn(60, "eu") == 0 {
+	if g.intn(200, "eu") == 0 {
 		return Item{K: "emit", N: "u0"} // unknown identifier: both sides must fail
 	}
 	return Item{K: "emit", N: g.pick(sc.names, "en")}
@@ -860,15 +876,18 @@ func (g *G) item(sc *scope) []Item {
 			kinds = append(kinds, "let")
 		}
 		if sc.depth < 3 {
-			kinds = append(kinds, "partial", "partial", "partial")
+			kinds = append(kinds, "partial", "partial", "partial", "partial")
 			if sc.inLayout {
 				kinds = append(kinds, "partial", "partial")
 			}
 		}
 		if sc.top && sc.nest == 0 {
-			kinds = append(kinds, "cfor", "cfor")
+			kinds = append(kinds, "cfor", "cfor", "cfor")
 		}
-		kinds = append(kinds, "cof", "cof", "cof")
+		kinds = append(kinds, "cof")
+		if len(sc.defined) > 0 {
+			kinds = append(kinds, "cof", "cof", "cof")
+		}
 	}
 	if sc.yield {
 		kinds = append(kinds, "yield", "yield")
@@ -917,16 +936,48 @@ func (g *G) item(sc *scope) []Item {
 	case "cfor":
 		j := g.intn(len(sc.own), "cj")
 		in := scope{names: without(stable, sc.hidden), guarded: without([]string{"c0", "c1"}, sc.hidden), depth: sc.depth, nest: sc.nest + 1,
-			own: sc.own, ownMax: j, anc: sc.anc, hidden: sc.hidden}
+			own: sc.own, ownMax: j, anc: sc.anc, hidden: sc.hidden, inBlock: true}
 		if g.textual {
 			in.guarded = nil
 		}
-		return []Item{{K: "cfor", N: sc.own[j], Body: g.doc(in, 3)}}
+		it := Item{K: "cfor", N: sc.own[j], Body: g.doc(in, 3)}
+		sc.defined = with(sc.defined, sc.own[j])
+		return []Item{it}
 	case "cof":
 		cands := append(append([]string{"zz"}, sc.own[:sc.ownMax]...), sc.anc...)
 		it := Item{K: "cof", N: g.pick(cands, "on")}
+		var known []string
+		for _, n := range sc.defined {
+			for _, c := range cands {
+				if n == c {
+					known = append(known, n)
+				}
+			}
+		}
+		isKnown := false
+		if len(known) > 0 && g.intn(3, "ok") > 0 {
+			it.N = g.pick(known, "okn")
+		}
+		for _, n := range known {
+			isKnown = isKnown || n == it.N
+		}
 		it.Data = g.data(*sc, cofKeys, 2, "od")
-		if g.intn(5, "odf") < 2 {
+		if sc.inBlock && it.N != "zz" && !g.textual {
+			// A stored block used from inside another stored block: whether it sees the outer block's
+			// data (scope of use) or not (scope of definition) is not stated. Passing every key a
+			// block may read makes both readings agree.
+			it.Data = nil
+			for _, k := range cofKeys {
+				kv := g.value(*sc, "odx")
+				kv.K = k
+				it.Data = append(it.Data, kv)
+			}
+		}
+		defP := 2
+		if !isKnown {
+			defP = 8 // mostly give an undefined name a default block, so that errors do not dominate
+		}
+		if g.intn(10, "odf") < defP {
 			in := *sc
 			in.nest++
 			in.top = false
@@ -948,7 +999,7 @@ func (g *G) partial(sc *scope) []Item {
 	visible := append(append([]string{}, sc.own[:sc.ownMax]...), sc.anc...)
 	own := g.newDoc()
 	body := scope{names: with(sc.names, keysOf(it.Data)...), guarded: without(sc.guarded, keysOf(it.Data)), depth: sc.depth + 1, top: true,
-		own: own, ownMax: len(own), anc: visible, yield: sc.yield, hidden: sc.hidden}
+		own: own, ownMax: len(own), anc: visible, yield: sc.yield, hidden: sc.hidden, inBlock: sc.inBlock}
 	it.Body = g.doc(body, 4)
 	layP := 3
 	if sc.inLayout {
@@ -958,9 +1009,9 @@ func (g *G) partial(sc *scope) []Item {
 		lown := g.newDoc()
 		// which scope a layout sees beyond the caller's is not stated: it reads only names nobody rebinds
 		ls := scope{names: without(stable, sc.hidden), depth: sc.depth + 1, top: true, own: lown, ownMax: len(lown), anc: visible, yield: true,
-			inLayout: true, hidden: sc.hidden}
+			inLayout: true, hidden: sc.hidden, inBlock: sc.inBlock}
 		lb := g.doc(ls, 4)
-		if !hasYield(lb) {
+		if !hasYield(lb) || (g.textual && !hasSureYield(lb)) {
 			pos := g.intn(len(lb)+1, "py")
 			lb = append(lb[:pos:pos], append([]Item{{K: "yield"}}, lb[pos:]...)...)
 		}
@@ -1252,5 +1303,36 @@ func TestProp(t *testing.T) {
 	})
 	r.Rapid("textual", r.Pick(2500, 30000), func(t *rapid.T) *vk.Fail {
 		return check(r, genCase(t, true))
+	})
+}
+
+// TestShow prints a few generated cases (VERIF_SHOW=n), for eyeballing the generator.
+func TestShow(t *testing.T) {
+	n, _ := strconv.Atoi(os.Getenv("VERIF_SHOW"))
+	if n <= 0 {
+		t.Skip("VERIF_SHOW not set")
+	}
+	textual := os.Getenv("VERIF_SHOW_TEXTUAL") != ""
+	i := 0
+	rapid.Check(t, func(rt *rapid.T) {
+		c := genCase(rt, textual)
+		if i++; i > n {
+			return
+		}
+		b := build(c)
+		fmt.Printf("---- %s\n", describe(c, b))
+		if textual {
+			fmt.Printf("  textual: %q\n", b.tmain)
+		}
+		out, err := plush.Render(b.main, plush.NewContextWith(func() map[string]interface{} {
+			d := baseData(c)
+			d["partialFeeder"] = func(name string) (string, error) { return b.parts[name], nil }
+			d["rec"] = func(help plush.HelperContext) (template.HTML, error) {
+				s, err := help.Block()
+				return template.HTML("[" + s + "]"), err
+			}
+			return d
+		}()))
+		fmt.Printf("  => %q %v\n", out, err)
 	})
 }
